@@ -189,6 +189,76 @@ def _explore(out, tier, seed, facts, replay):
             if not math.isnan(float(v_[0])):
                 out.violation("empty-slice-number:%s" % n_.lower(), "%s -b %s: the day whose observations are all missing scores %r instead of NaN" % (n_, bt_, float(v_[0])),
                               {"metric": n_, "bin_type": bt_, "dataset": spec_})
+    # quantile-based scores through the real dataset.  A level the file stores is read from the file, also when the
+    # requested level differs from the stored one by rounding only (single-precision coordinate, computed level) and
+    # an ensemble is present as well; every score is taken over the cases where ALL the fields it needs are present.
+    import scipy.stats
+    for rnd in range(8 if tier == "quick" else 80):
+        nt, nl = rng.randint(2, 4), rng.randint(1, 3)
+
+        def cube3(gen):
+            return [[[gen() for _ in range(nl)]] for _ in range(nt)]
+        spec_q = {"times": [86400 * k for k in range(nt)], "leads": [0.0], "locs": [[k + 1, 0.0, 0.0, 0.0] for k in range(nl)],
+                  "fields": {"obs": cube3(lambda: None if rng.random() < 0.2 else rng.choice([0.0, 1.0, 2.0, 3.5, 5.0])),
+                             "fcst": cube3(lambda: None if rng.random() < 0.15 else rng.choice([0.5, 1.0, 2.5, 4.0]))}}
+        for k in range(3):
+            spec_q["fields"]["ens%d" % k] = cube3(lambda: 100.0 + rng.choice([0.0, 5.0, 20.0]))      # far from the stored quantiles
+        levels = [0.1, 0.3, 0.9]
+        stored = [float(np.float32(l)) for l in levels] if rnd % 2 == 0 else list(levels)
+        base = np.array(cube3(lambda: rng.choice([0.0, 1.0, 2.0, 3.0])), float).reshape(nt, 1, nl)
+        qarr = np.stack([base, base + 0.5, base + np.array(cube3(lambda: rng.choice([1.0, 2.0, 6.0])), float).reshape(nt, 1, nl)], axis=3)
+        for _ in range(rng.randint(0, 2)):
+            qarr[rng.randrange(nt), 0, rng.randrange(nl), rng.randrange(3)] = NAN
+        inp_q = datagen.mem_input(spec_q, "q")
+        inp_q.quantiles = np.array(stored)
+        inp_q.quantile_scores = qarr
+        d_q = verif.data.Data([inp_q])
+        O = inp_q.obs.reshape(nt, nl)
+        Fc = inp_q.fcst.reshape(nt, nl)
+        Q = {0: qarr[:, 0, :, 0], 1: qarr[:, 0, :, 1], 2: qarr[:, 0, :, 2]}
+        for (lo_req, li), (hi_req, hi_i) in (((1 - 0.9, 0), (0.9, 2)), ((0.1, 0), (0.9, 2)), ((0.1 * 3, 1), (0.9, 2)), ((0.1, 0), (0.3, 1))):
+            iv_q = verif.interval.Interval(lo_req, hi_req, True, True)
+            for axis_, slices in ((verif.axis.No(), [np.ones((nt, nl), bool)]),
+                                  (verif.axis.Time(), [np.arange(nt)[:, None] == k for k in range(nt)])):
+                slices = [np.broadcast_to(m_, (nt, nl)) for m_ in slices]
+
+                def ref(kind, m_):
+                    if kind == "Spread":
+                        ok = m_ & ~np.isnan(Q[li]) & ~np.isnan(Q[hi_i])
+                        return float(np.mean(Q[hi_i][ok] - Q[li][ok])) if ok.any() else NAN
+                    if kind == "SpreadSkillRatio":
+                        ok = m_ & ~np.isnan(Q[li]) & ~np.isnan(Q[hi_i]) & ~np.isnan(O) & ~np.isnan(Fc)
+                        if not ok.any():
+                            return NAN
+                        sp = float(np.mean(Q[hi_i][ok] - Q[li][ok])) / (0.5 * (scipy.stats.norm.ppf(hi_req) - scipy.stats.norm.ppf(lo_req)))
+                        rm = math.sqrt(float(np.mean((O[ok] - Fc[ok]) ** 2)))
+                        return sp / rm if rm != 0 else (NAN if sp == 0 else math.copysign(math.inf, sp))
+                    if kind == "QuantileScore":
+                        ok = m_ & ~np.isnan(Q[li]) & ~np.isnan(O)
+                        e_ = O[ok] - Q[li][ok]
+                        return float(np.mean(e_ * (lo_req - (e_ < 0)))) if ok.any() else NAN
+                    ok = m_ & ~np.isnan(Q[li]) & ~np.isnan(Q[hi_i]) & ~np.isnan(O)
+                    return float(np.mean((O[ok] >= Q[li][ok]) & (O[ok] <= Q[hi_i][ok]))) if ok.any() else NAN
+                for kind in ("Spread", "SpreadSkillRatio", "QuantileScore", "QuantileCoverage"):
+                    mobj = getattr(verif.metric, kind)()
+                    try:
+                        with np.errstate(all="ignore"):
+                            got_ = np.asarray(mobj.compute(d_q, 0, axis_, iv_q), float).flatten()
+                    except datagen.ImplExit as e:
+                        out.violation("stored-quantile-refused:%s" % kind.lower(), "%s with quantile levels %r, %r: the file stores levels %r, yet the run stops with an error (%s)" % (kind, lo_req, hi_req, stored, e),
+                                      {"metric": kind, "requested_levels": [lo_req, hi_req], "stored_levels": stored, "dataset": spec_q, "quantile_columns": qarr.tolist()})
+                        continue
+                    except Exception as e:
+                        out.violation("quantile-metric-exception:%s" % kind.lower(), "%s raised %s: %s" % (kind, type(e).__name__, e),
+                                      {"metric": kind, "requested_levels": [lo_req, hi_req], "stored_levels": stored, "dataset": spec_q, "quantile_columns": qarr.tolist()})
+                        continue
+                    want_ = [ref(kind, m_) for m_ in slices]
+                    for k_, (g_, w_) in enumerate(zip(got_, want_)):
+                        if not close(float(g_), w_, 1e-9):
+                            out.violation("quantile-definition:%s" % kind.lower(), "%s for levels (%r, %r) along %s, slice %d: got %r; the definition on the file's quantile columns "
+                                          "(stored levels %r) over the cases where all needed values are present gives %r" % (kind, lo_req, hi_req, axis_.name(), k_, float(g_), stored, w_),
+                                          {"metric": kind, "requested_levels": [lo_req, hi_req], "stored_levels": stored, "dataset": spec_q, "quantile_columns": qarr.tolist(), "axis": axis_.name(), "slice": k_})
+                            break
     # ensemble-derived probabilities and quantiles through Data
     nens = 40 if tier == "quick" else 400
     ens_cases = []
